@@ -1,5 +1,6 @@
-(* C07 — histories: the combined object I (either storage, switching at will) refines S along every history of
-   indexed writes, length assignments, deletes and defines. No axioms. *)
+(* C07 — histories: the combined object I (either storage, switching at will) refines S along EVERY history of
+   indexed writes, length assignments, deletes and defines (no side conditions beyond well-formed arguments).
+   No axioms. *)
 From Coq Require Import List NArith ZArith Bool Lia.
 Import ListNotations.
 From Verif.C07 Require Import Model Proofs ProofsLib ProofsLen ProofsOps ProofsSet.
@@ -22,23 +23,13 @@ Definition s_mstep (a : sarr) (o : mop) : sarr * N :=
   | MDefine k d => let '(a', r) := s_define a k d in (a', berr r)
   end.
 
-(* side conditions of one step: index keys, valid lengths; for a define additionally the two regions of the
-   open findings are excluded (kind conversion: C07-N1..N3; uncounted valueProperty on a storage switch: C07-N6) *)
+(* side conditions of one step: index keys, valid lengths, descriptors as ToPropertyDescriptor produces them *)
 Definition op_ok (a : iarr) (o : mop) : Prop :=
   match o with
   | MSet k _ => k < MAXIDX
   | MSetLen l => l <= 4294967295
   | MDelete k => k < MAXIDX
-  | MDefine k dsc =>
-      k < MAXIDX /\ desc_wf dsc = true /\
-      match a with
-      | ID d => no_kind_change (dnth (da_values d) k) dsc = true /\
-                (forall p s, goja_define (b_ext (da_base d)) (dnth (da_values d) k) dsc = Some p ->
-                             fst (d_defineIdx d k dsc) = IS s -> is_vp p = false)
-      | IS s => no_kind_change (alookup (sa_items s) k) dsc = true /\
-                (forall p d, goja_define (b_ext (sa_base s)) (alookup (sa_items s) k) dsc = Some p ->
-                             fst (sp_defineIdx s k dsc) = ID d -> is_vp p = false)
-      end
+  | MDefine k dsc => k < MAXIDX /\ desc_wf dsc = true
   end.
 
 Lemma mstep_refines a o : InvA a -> op_ok a o ->
@@ -62,13 +53,13 @@ Proof.
       destruct (d_deleteIdx d k); simpl in *. auto.
     + destruct (sparse_delete_refines s k Hinv Hok) as [H1 H2]. rewrite H1.
       destruct (sp_deleteIdx s k); simpl in *. auto.
-  - destruct Hok as (Hk0 & Hwf & Hg). pose proof Hk0 as Hk. apply N.ltb_lt in Hk.
+  - destruct Hok as (Hk0 & Hwf). pose proof Hk0 as Hk. apply N.ltb_lt in Hk.
     unfold i_mstep, s_mstep, i_define. rewrite Hk.
-    destruct a as [d|s]; simpl absA; destruct Hg as [Hg1 Hg2].
+    destruct a as [d|s]; simpl absA.
     + destruct (dense_define_refines d k dsc Hinv Hk0 Hwf) as [H1 H2]. rewrite H1.
-      specialize (H2 Hg1 Hg2). destruct (d_defineIdx d k dsc); simpl in *. auto.
+      destruct (d_defineIdx d k dsc); simpl in *. auto.
     + destruct (sparse_define_refines s k dsc Hinv Hk0 Hwf) as [H1 H2]. rewrite H1.
-      specialize (H2 Hg1 Hg2). destruct (sp_defineIdx s k dsc); simpl in *. auto.
+      destruct (sp_defineIdx s k dsc); simpl in *. auto.
 Qed.
 
 Fixpoint i_run (a : iarr) (ops : list mop) : iarr * list N :=
